@@ -26,6 +26,7 @@ func init() {
 			{ID: "C15-R3", Title: "HashKey is the payload itself", Floor: 5, Run: c15r3},
 			{ID: "C15-R4", Title: "no ordering by integer subtraction", Floor: 8, Run: c15r4},
 			{ID: "C15-R5", Title: "sorts by the script-level ordering are stable", Floor: 2, Run: c15r5},
+			{ID: "C15-R6", Title: "mirrored Equals cases compute the same relation", Floor: 2, Run: c15r6},
 		},
 	})
 }
